@@ -204,7 +204,7 @@ def u_emit2(c):
     events = []
     prb = Obj(it.get_global(P, "Probe"), c.new_id())
     raw = bool(c.choose(2, "raw"))
-    prb.fields.update(_raw=raw, _observers=[_observer(it, "o1", events)], _root=None)
+    prb.fields.update(_raw=raw, _observers=[_observer(it, "o1", events)], _root=None, _live=True)
     prb.fields["_root"] = prb
     begin = bool(c.choose(2, "begin"))
     v = c.val("v")
